@@ -289,7 +289,9 @@ func (sc *schedScenario) explore(t *testing.T, j *vlib.Job, r *vlib.Result) {
 		for i := 0; i < 3; i++ {
 			x := sc.runOne(t, j, rp.Choices)
 			r.Evaluations++
-			sig := x.Outcome + "|" + x.Violation
+			// the failure class (not the text, which may quote random bytes such as mis-decrypted
+			// values or goroutine addresses) must be identical on every replay
+			sig := x.Outcome + "|" + x.Class
 			if i == 0 {
 				first = sig
 				r.Notes = append(r.Notes, "replay outcome: "+x.Outcome, "trace: "+x.S.TraceString())
